@@ -21,3 +21,16 @@ Definition model (a : call_args) : call_res :=
 Definition check_call (a : call_args) (exp : call_res) : bool :=
   let r := model a in memory_eqb (fst r) (fst exp) && opt_eqb str_eqb (snd r) (snd exp).
 Definition case_t_call : Type := (N * call_args * call_res)%type.
+
+(** Group [crawl]: one whole crawl of one rule. Arguments: option list, policy, the rule's
+    [ignore_words] (lower case) and the tokens the rule applies to (harness: the independent
+    scope walk over the parse tree, ignored words included); expected: the calls of
+    [handle_segment] the recorder saw during that crawl, in order (raw text, reported fix). *)
+Definition crawl_args : Type := (pname * policy * list str * list (str * bool))%type.
+Definition crawl_res : Type := list (str * option str).
+Definition model_crawl (a : crawl_args) : crawl_res :=
+  let '(n, p, ig, ts) := a in calls_of (trace n p ig ts).
+Definition call_eqb (a b : str * option str) : bool :=
+  str_eqb (fst a) (fst b) && opt_eqb str_eqb (snd a) (snd b).
+Definition check_crawl (a : crawl_args) (exp : crawl_res) : bool := list_eqb call_eqb (model_crawl a) exp.
+Definition case_t_crawl : Type := (N * crawl_args * crawl_res)%type.
